@@ -1,0 +1,18 @@
+//go:build verif
+
+package filesystem
+
+// Contract for the directory listing used by housekeeping (property C43:
+// "never touches anything outside Mutagen's data directory"). Comment-only
+// file, read by govc.
+
+// A successful listing consists of entries whose names are single path
+// components other than "." and ".." (validname: the trusted fact about
+// os.File.Readdir, carried to the callers unchanged).
+//@ func DirectoryContentsByPath
+// ([names] is stated a second time with the index shifted by one: that is
+// the form the solvers can instantiate at the element a `for range` loop is
+// visiting, whose index is the term rangeindex+1.)
+//@   ensures[names] result1 == nil ==> forall k in 0..len(result0) :: result0[k] != nil && validname(dename(result0[k]))
+//@   ensures[names] result1 == nil ==> forall k in -1..len(result0)-1 :: result0[k+1] != nil && validname(dename(result0[k+1]))
+//@   ensures[fail] result1 != nil ==> len(result0) == 0
